@@ -1,9 +1,11 @@
 use crate::engine::{Check, Ctx, Report};
 use serde_json::Value as J;
 
+pub mod c13;
 pub mod c14;
 pub mod c17;
 pub mod c18;
+pub mod c19;
 
 pub struct Property {
     pub id: &'static str,
@@ -13,8 +15,10 @@ pub struct Property {
 
 pub fn all() -> Vec<Property> {
     vec![
+        Property { id: "C13", run: c13::run, replay: c13::replay },
         Property { id: "C14", run: c14::run, replay: c14::replay },
         Property { id: "C17", run: c17::run, replay: c17::replay },
         Property { id: "C18", run: c18::run, replay: c18::replay },
+        Property { id: "C19", run: c19::run, replay: c19::replay },
     ]
 }
